@@ -36,10 +36,16 @@ RECYCLE_CHUNKS = 8
 BUDGET_S = {"quick": 900, "thorough": 8000}
 
 
+CONSTRUCTED = []  # every inferred object that is constructed, in order: the side effects of evaluating a rule query
+
+
 @dataclass(eq=False)
 class Out:
     tag: int
     p: object = None
+
+    def __post_init__(self):
+        CONSTRUCTED.append(f"Out{self.tag}:{getattr(self.p, 'name', self.p)}")
 
     def __repr__(self):
         return f"Out({self.tag},{self.p})"
@@ -233,6 +239,13 @@ def isolated(name, kind, t):
     return [render(t, r) for r in targets[t].evaluate()]
 
 
+def isolated_effects(name, kind, t):
+    targets, render = scenario(name, kind)
+    del CONSTRUCTED[:]
+    list(targets[t].evaluate())
+    return list(CONSTRUCTED)
+
+
 def cases(tier, seed):
     out = []
     for name in SCENARIOS:
@@ -260,7 +273,8 @@ def cases(tier, seed):
 
 def run_schedule(name, kind, progs, sched):
     targets, render = scenario(name, kind)
-    r = S.Runner(targets, render)
+    del CONSTRUCTED[:]
+    r = S.Runner(targets, render, effects=CONSTRUCTED)
     pos = [0] * len(progs)
     positions = []
     for t in sched:
@@ -271,6 +285,14 @@ def run_schedule(name, kind, progs, sched):
 
 
 _ISO = {}
+_ISO_EFFECTS = {}
+
+
+def iso_effects(name, kind, t):
+    k = (name, kind, t)
+    if k not in _ISO_EFFECTS:
+        _ISO_EFFECTS[k] = isolated_effects(name, kind, t)
+    return _ISO_EFFECTS[k]
 
 
 def iso(name, kind, t):
@@ -294,6 +316,12 @@ def judge(name, kind, evals):
             if got != exp[:len(got)]:
                 bad.append(("wrong-prefix", f"abandoned evaluation of iterator {e['thread']} produced {got}, "
                                             f"not a prefix of {exp}"))
+        # side effects: the objects a rule query constructs while it produces its results
+        from collections import Counter
+        eff, exp_eff = Counter(e.get("effects", [])), Counter(iso_effects(name, kind, e["thread"]))
+        if (eff != exp_eff) if e["end"] == "exhausted" else bool(eff - exp_eff):
+            bad.append(("wrong-side-effects", f"evaluation #{evals.index(e)} of iterator {e['thread']} constructed "
+                                              f"{sorted(e.get('effects', []))}, alone it constructs {sorted(iso_effects(name, kind, e['thread']))}"))
     return bad
 
 
